@@ -10,15 +10,33 @@
 (* state on top.                                                           *)
 (*                                                                         *)
 (* events (file order = global sequence number of the recorder)            *)
-(*   reset  kind max             a fresh executor; new history             *)
+(*   reset  kind max [iv]        a fresh executor; new history.  max (and  *)
+(*                               iv, the flush interval in ms) are what    *)
+(*                               THIS executor was configured with: the    *)
+(*                               explicit option, or the package's default *)
+(*                               constant where the option was left out    *)
+(*                               (several executors with different options *)
+(*                               may exist in the recording process, each  *)
+(*                               is a history of its own)                  *)
 (*   ainv p t s / aret p         Add(t) of s bytes invoked / returned      *)
 (*   add p t                     [per] AddTask, logged under pe.lock       *)
 (*   take b                      [per] RemoveAll result, under pe.lock     *)
 (*   xb b / xe b                 execute callback entered / about to return*)
 (*   winv p / wret p             Wait invoked / returned                   *)
 (*   finv p / fret p             Flush invoked / returned                  *)
-(*   fstart n / fstop n / tick n / jump   flusher's ticker created /       *)
-(*                               stopped, a tick accepted, clock jump      *)
+(*   fstart n [d] / fstop n / tick n / jump   flusher's ticker created     *)
+(*                               (with period d ms: "the periodic tick" is *)
+(*                               the configured interval's) / stopped, a   *)
+(*                               tick accepted, clock jump                 *)
+(*   rest                        no public call is in progress and every   *)
+(*                               goroutine of the executor has ended (no   *)
+(*                               background flusher is left), reached by   *)
+(*                               ticks and clock jumps alone - no Add,     *)
+(*                               Flush or Wait was called to get here.     *)
+(*                               Nothing may be left behind: a task still  *)
+(*                               held now would be executed by no trigger  *)
+(*                               unless the caller acts again              *)
+(*                               (PeriodicalImpl.tla: HeldCovered).        *)
 (*   quiesce                     everything joined, final Wait returned,   *)
 (*                               flushers retired                          *)
 (*   hang op calls unexecuted    some public call did not return although  *)
@@ -67,13 +85,13 @@ Consume == l' = l + 1
 
 Init ==
   /\ l = 1 /\ fl = {} /\ handled = {}
-  /\ AInit([kind |-> "none", max |-> 0])
+  /\ AInit([kind |-> "none", max |-> 0, iv |-> 0])
   /\ TLCSet(1, 1)
 
 Reset ==
   /\ Is("reset")
   /\ \A p \in Procs : pc[p] = Idle
-  /\ conf' = [kind |-> Ev.kind, max |-> Ev.max]
+  /\ conf' = [kind |-> Ev.kind, max |-> Ev.max, iv |-> IF "iv" \in DOMAIN Ev THEN Ev.iv ELSE 0]
   /\ added' = <<>> /\ sz' = <<>> /\ held' = <<>> /\ pend' = {} /\ running' = {}
   /\ begun' = {} /\ finished' = {} /\ returned' = {}
   /\ UNCHANGED pc /\ fl' = {} /\ handled' = {} /\ Consume
@@ -106,7 +124,8 @@ EvWInv   == Is("winv") /\ WaitInv(Ev.p) /\ UFH /\ Consume
 EvWRet   == Is("wret") /\ WaitRet(Ev.p) /\ UFH /\ Consume
 EvFInv   == Is("finv") /\ FlushInv(Ev.p) /\ UFH /\ Consume
 EvFRet   == Is("fret") /\ FlushRet(Ev.p) /\ UFH /\ Consume
-EvFStart == Is("fstart") /\ fl' = fl \cup {Ev.n} /\ UNCHANGED <<handled, avars>> /\ Consume
+EvFStart == Is("fstart") /\ (("d" \in DOMAIN Ev /\ conf.iv > 0) => Ev.d = conf.iv)
+            /\ fl' = fl \cup {Ev.n} /\ UNCHANGED <<handled, avars>> /\ Consume
 EvFStop  == Is("fstop") /\ Ev.n \in fl /\ fl' = fl \ {Ev.n} /\ UNCHANGED <<handled, avars>> /\ Consume
 EvTick   == Is("tick") /\ UNCHANGED <<fl, handled, avars>> /\ Consume
 EvJump   == Is("jump") /\ UNCHANGED <<fl, handled, avars>> /\ Consume
@@ -114,11 +133,12 @@ EvHang   == Is("hang") /\ FALSE /\ UNCHANGED <<fl, handled, avars>> /\ Consume
 EvThr    == Is("thr") /\ conf.kind = "inserter" /\ begun # {} /\ UNCHANGED <<fl, handled, avars>> /\ Consume
 EvNoFlush == Is("threshold-no-flush") /\ FALSE /\ UNCHANGED <<fl, handled, avars>> /\ Consume
 EvQuiet  == Is("quiesce") /\ Quiet /\ UNCHANGED <<fl, handled, avars>> /\ Consume
+EvRest   == Is("rest") /\ Quiet /\ UNCHANGED <<fl, handled, avars>> /\ Consume
 
 Logged ==
   \/ Reset \/ EvAddInv \/ EvAdd \/ EvAddRet \/ EvTake \/ EvXb \/ EvXe \/ EvWInv \/ EvWRet
   \/ EvFInv \/ EvFRet \/ EvFStart \/ EvFStop \/ EvTick \/ EvJump \/ EvQuiet \/ EvHang
-  \/ EvRh \/ EvXbm \/ EvXem \/ EvThr \/ EvNoFlush
+  \/ EvRh \/ EvXbm \/ EvXem \/ EvThr \/ EvNoFlush \/ EvRest
 
 \* public-API kinds: the effect of Add is not observable
 Internal ==
